@@ -392,3 +392,11 @@ RULES = [
     ("C06.d", "every model task has a registered observer", rule_d),
     ("C06.e", "observer length = queue length", rule_e),
 ]
+
+
+def rule_worker_loops(ctx):
+    from . import c04
+    c04.mt_worker_loop_rule(ctx)
+
+
+RULES.append(("C06.i", "run loops stop only when the worker's queues are empty (a worker that parks while holding runnable tasks makes the pool look idle: spurious Deadlock)", rule_worker_loops))
